@@ -53,6 +53,9 @@ func castOne(c *fw.Ctx, in Input, stepMs int) {
 	if in.Sib {
 		parent = sibRoot
 	}
+	if in.Pre != "" {
+		parent = preRoots[in.Pre]
+	}
 	st := node.StateAt(parent)
 	b := block(in.Txs, st, 0)
 	sort.Sort(types.Transactions(b.Transactions)) // the pool hands the proposer a sorted list
